@@ -84,6 +84,7 @@ def build_scenario(case, variant):
         raise ValueError(variant)
     s = Scn()
     s.n = n
+    s.small = bool(case.get('small'))
     s.P = rep(base)
     s.x = s.P[:, 0]
     s.y = s.P[:, 1]
@@ -129,7 +130,7 @@ def _table():
         T['convex_hull.' + f] = lambda s: (s.P,)
     for m in ('curvature', 'dfdt', 'menger'):
         T[m + '.knee'] = lambda s: (s.P,)
-        T[m + '.multi_knee'] = lambda s: (s.P, s.t * 0.1, 4)
+        T[m + '.multi_knee'] = lambda s: (s.P, s.t * 0.1, (2 + s.i % 4) if s.small else 4)
     T['dfdt.get_knee'] = lambda s: (s.x, s.y)
     T['dfdt.get_knee_gradient'] = lambda s: (s.yv,)
     ev = 'evaluation.'
@@ -163,7 +164,7 @@ def _table():
     T[kn + 'differences'] = lambda s: (s.P, getattr(s.L.kneedle.Direction, s.opt['cd']), getattr(s.L.kneedle.Concavity, s.opt['cc']))
     T[kn + 'knees'] = lambda s: (s.P, s.opt['tau'], 1.0, getattr(s.L.kneedle.PeakDetection, s.opt['peak']))
     T[kn + 'knee'] = lambda s: (s.P, s.opt['tau'])
-    T[kn + 'multi_knee'] = lambda s: (s.P, s.t * 0.1, 4)
+    T[kn + 'multi_knee'] = lambda s: (s.P, s.t * 0.1, (2 + s.i % 4) if s.small else 4)
     lf = 'linear_fit.'
     for f in ('linear_fit_points', 'linear_hv_residuals_points', 'linear_fit_residuals_points', 'perpendicular_distance'):
         T[lf + f] = lambda s: (s.P,)
@@ -189,8 +190,8 @@ def _table():
     FIT = lambda s: getattr(s.L.lmethod.Fit, s.opt['fit'])
     T[lm + 'compute_error'] = lambda s: (s.x, s.y, 2 + s.i % (s.n - 4), float(s.x[-1] - s.x[0]), FIT(s), getattr(s.L.lmethod.Cost, s.opt['lcost']))
     T[lm + 'get_knee'] = lambda s: (s.x, s.y, FIT(s), getattr(s.L.lmethod.Cost, s.opt['lcost']))
-    T[lm + 'knee'] = lambda s: (s.P, FIT(s), getattr(s.L.lmethod.Refinement, s.opt['ref']), 4 + s.i % 8)
-    T[lm + 'multi_knee'] = lambda s: (s.P, s.t * 0.1, 5)
+    T[lm + 'knee'] = lambda s: (s.P, FIT(s), getattr(s.L.lmethod.Refinement, s.opt['ref']), (3 + s.i % 4) if s.small else (4 + s.i % 8))
+    T[lm + 'multi_knee'] = lambda s: (s.P, s.t * 0.1, (3 + s.i % 3) if s.small else 5)
     T['menger.menger_curvature'] = lambda s: (s.tri[0], s.tri[1], s.tri[2])
     for f in ('rmse', 'rmsle', 'rmspe', 'rpd', 'residuals', 'smape'):
         T['metrics.' + f] = lambda s: (s.yv, s.yhat)
@@ -597,6 +598,62 @@ def oracle_dtype(case, rec):
         rec.nontrivial = True
 
 
+@st.composite
+def small_cases(draw, tier):
+    """The shortest valid curves (2..7 points) through every table entry whose arguments can be built
+    for them, with the smallest documented option values (limit, t2).  Whether a function accepts or
+    rejects such an input is other properties' business; here only linkage failures (NameError incl.
+    UnboundLocalError, AttributeError, arity TypeError), impurity, nondeterminism and representation
+    dependence count."""
+    fn = draw(st.sampled_from(sorted(TABLE)))
+    n = draw(st.integers(2, 7))
+    integral = draw(st.booleans())
+    x = draw(S.xs(n, integer=True))
+    if integral:
+        ys = draw(st.lists(st.integers(0, 30), min_size=n, max_size=n))
+    else:
+        ys = [round(v, 3) for v in draw(st.lists(st.floats(0, 30, allow_nan=False), min_size=n, max_size=n))]
+    shape = draw(st.sampled_from(['any', 'dec', 'inc', 'line']))
+    if shape == 'dec':
+        ys = sorted(ys, reverse=True)
+    elif shape == 'inc':
+        ys = sorted(ys)
+    elif shape == 'line':
+        ys = [float(3 * (x[-1] - a)) for a in x]
+    pts = [[float(a), float(b)] for a, b in zip(x, ys)]
+    inner = list(range(1, n - 1))
+    knees = sorted(draw(st.lists(st.sampled_from(inner), min_size=1, max_size=len(inner), unique=True))) if inner else [0]
+    keep = sorted(draw(st.lists(st.sampled_from(inner), max_size=len(inner), unique=True))) if inner else []
+    reduced = [0] + keep + [n - 1]
+    kpos = sorted(draw(st.lists(st.integers(0, len(reduced) - 1), min_size=1, max_size=2, unique=True)))
+    small = st.integers(0, 12).map(float)
+    j = draw(st.integers(0, n - 1))
+    expected = [[pts[j][0] + draw(st.sampled_from([0.0, 1.0, -1.0])), pts[j][1] + draw(st.sampled_from([0.0, 1.0]))]]
+    rect = [[0.0, 0.0], [1.0 + draw(small), 1.0 + draw(small)], [draw(small), draw(small)], [13.0 + draw(small), 13.0 + draw(small)]]
+    tri = [[draw(small), draw(small)], [20.0 + draw(small), draw(small)], [40.0 + draw(small), 50.0 + draw(small)]]
+    return {'kind': 'small', 'small': True, 'function': fn, 'family': 'integral' if integral or shape == 'line' else 'small-float',
+            'pts': pts, 'knees': knees, 'reduced': reduced, 'kpos': kpos, 'expected': expected,
+            'cm': [[draw(st.integers(0, 3)), draw(st.integers(0, 3))], [draw(st.integers(0, 3)), draw(st.integers(0, 3))]],
+            't': draw(st.sampled_from([0.01, 0.05, 0.125, 0.2, 0.5])), 'noise': [draw(st.sampled_from([0.0, 1.0, 0.5])) for _ in range(n)],
+            'rect': rect, 'tri': tri, 'values': [draw(small) for _ in range(draw(st.integers(1, 4)))],
+            'ts': draw(st.lists(st.sampled_from([0.5, 0.1, 0.01]), min_size=1, max_size=3)), 'i': draw(st.integers(0, 1000)),
+            'opt': {k_: draw(st.sampled_from(v)) for k_, v in sorted(OPTS.items())}}
+
+
+def oracle_small(case, rec):
+    fn = case['function']
+    rec.tag('small:n=%d' % len(case['pts']))
+    try:
+        for variant in ('C', 'int64'):
+            s = build_scenario(case, variant)
+            s.opt = case['opt']
+            TABLE[fn](s)
+    except Exception as e:   # the table entry needs a longer curve (e.g. an index i with 2 <= i <= n-3)
+        rec.tag('small:arguments-not-constructible')
+        return
+    oracle_dyn(case, rec)
+
+
 def uncovered_functions():
     return sorted(set(public_functions()) - set(TABLE) - set(EXCLUDED_DYNAMIC))
 
@@ -784,6 +841,7 @@ def examples_dyn(tier):
 SUBS = [
     Sub('dynamic', oracle_dyn, strategy=dyn_cases, budget={'quick': 4800, 'thorough': 96000}),
     Sub('dtype', oracle_dtype, strategy=dtype_cases, budget={'quick': 4800, 'thorough': 96000}),
+    Sub('small', oracle_small, strategy=small_cases, budget={'quick': 3200, 'thorough': 48000}),
     Sub('linkage', oracle_link, enumerate=enumerate_sites, exhaustive=True, shards=4),
     Sub('gaps', oracle_gaps, enumerate=enumerate_dynamic_gaps, shards=1),
 ]
